@@ -502,7 +502,10 @@ def _run_variant(args):
         dst = os.path.join(d, 'pyins')
         shutil.copytree(os.path.join(root, 'pyins'), dst,
                         ignore=shutil.ignore_patterns('__pycache__', 'tests'))
-        if var is not None:
+        if var is not None and var.get('transform') is not None:
+            from . import audit
+            audit.apply(var['transform'], d)
+        elif var is not None:
             p = os.path.join(dst, var['file'])
             with open(p) as fh:
                 s = fh.read()
@@ -529,8 +532,28 @@ def _run_variant(args):
         shutil.rmtree(d, ignore_errors=True)
 
 
+def _auto_variants(ctx):
+    """behaviour-preserving transformations (audit.py) of the modules the rules of this property
+    looked at: generated must-stay-silent variants"""
+    from . import audit
+    mods = set()
+    for fq in ctx.functions:
+        parts = fq.split('.')
+        if len(parts) >= 2:
+            mods.add((parts[1] if parts[0] == 'pyins' else parts[0]) + '.py')
+    out = []
+    for tr in audit.transforms(ctx.root):
+        name, fn, target = tr
+        if fn in mods:
+            out.append(dict(props=[ctx.prop], kind='silent', file=fn, old=name, new='',
+                            note='generated: ' + name, every=False, transform=tr))
+    return out
+
+
 def run(ctx):
     mine = [x for x in V if ctx.prop in x['props']]
+    if os.environ.get('PYINS_SA_NO_AUDIT') != '1':
+        mine = mine + _auto_variants(ctx)
     check_py = os.path.join(os.path.dirname(os.path.dirname(os.path.abspath(__file__))),
                             'check.py')
     jobs = [(ctx.prop, None, ctx.root, check_py)] + [(ctx.prop, x, ctx.root, check_py)
